@@ -159,7 +159,7 @@ theorem tryMerge_cases (h : Inv G E sm gs) {u0 v0 : Nat} (hu0 : u0 < sm.n) (hv0 
       | ok => exact ⟨uf', b, a, hspec.1, hspec.2.1, Or.inr ⟨rfl, rfl⟩, hlt', rfl⟩
 
 theorem doMerge_ne_refused (sm : SM) (uf : Links) (u v : Nat) : (sm.doMerge uf u v).2 ≠ .refused := by
-  unfold SM.doMerge
+  unfold SM.doMerge SM.resortWindow
   simp only
   split <;> simp
 
